@@ -2,7 +2,7 @@
 import ast
 
 from ..core import AnalysisError, src, qualname_of, enclosing_function, parents
-from ..pysym import path_values, SymExec, show, subterms
+from ..pysym import path_values, SymExec, show, subterms, terms_of
 from ..rules_pyx import N, C, A, bind_args
 from .. import logic
 
@@ -270,10 +270,15 @@ def r_ptb(repo, rep, writer_only=False, RT='R20.6', RE='R20.5'):
     rm = repo.module(RD)
     pp = rm.get('_parse_ptb')
     wr = '%s:%s _parse_ptb' % (RD, pp.lineno)
-    txt = [n for n in ast.walk(pp) if isinstance(n, ast.Call) and isinstance(n.func, ast.Attribute) and n.func.attr == 'startswith']
-    okp = bool(txt) and isinstance(txt[0].args[0], ast.Constant) and txt[0].args[0].value == prefix
-    sl = [n for n in ast.walk(pp) if isinstance(n, ast.Subscript) and isinstance(n.slice, ast.Slice) and src(n.value) == pp.args.args[0].arg]
-    oks = bool(sl) and prefix is not None and src(sl[0].slice.lower) == str(len(prefix)) and src(sl[0].slice.upper) == '-1'
+    # the prefix test and the slice, read off the values the reader's paths compute (constants resolved)
+    p0 = N(pp.args.args[0].arg)
+    okp = oks = False
+    for st_, o_ in SymExec(pp, unroll=1).run():
+        for t_ in (x for y in terms_of(st_) for x in subterms(y)):
+            if t_[0] == 'call' and t_[1] == A(p0, 'startswith') and t_[2] == (C(prefix),):
+                okp = True
+            if t_[0] == 'sub' and t_[1] == p0 and t_[2][0] == 'slice' and prefix is not None and t_[2][1] == C(len(prefix)) and t_[2][2] == C(-1) and t_[2][3] is None:
+                oks = True
     rep.check(okp and oks, 'R20.6', wr, '_parse_ptb:root', 'the reader requires the prefix %r and strips exactly it and the final bracket' % prefix,
               'reader prefix test / slice do not match the writer\'s root template %r' % prefix)
     # completeness: every container that receives opened categories must be accounted for by the final check, which
